@@ -526,7 +526,13 @@ Definition handle_key_update (c : conn) (req : bool) (rnd : N -> bytes) : res (b
   if negb (is_suite13 (cn_suite c)) then Err a_internal_error else
   let i := set_traffic_secret (cn_in c) (cn_suite c) (next_secret P (cn_suite c) (h_secret (cn_in c))) in
   let c1 := with_in c i (cn_input c) (cn_hand c) (cn_retry c) in
-  if req then send_key_update c1 false rnd else Ok ([], c1).
+  if req then
+    match send_key_update c1 false rnd with
+    | Ok r => Ok r
+    | Err _ => Ok ([], c1)              (* conn.go:1362: c.out.setErrorLocked(err); return nil *)
+    | Panic e => Panic e
+    end
+  else Ok ([], c1).
 
 (* conn.go:1309 handlePostHandshakeMessage on a complete message taken from c.hand
    (TLS 1.3: NewSessionTicket is consumed, KeyUpdate handled, anything else refused;
